@@ -52,10 +52,28 @@ Proof.
   unfold take, avail; cbn [fst snd]. change (pad_of 0) with 0. destruct (Z.leb_spec k (Z.max 0 (b - 0))); [reflexivity|lia].
 Qed.
 
+Lemma need_scoped_take (b k : Z) : 0 <= k <= b -> run_takes (Seq (Need b) (Scoped (Take k))) (0, b) <> None.
+Proof.
+  intros Hk. apply fail_kind_run_takes. cbn [fail_kind run_tree]. unfold avail; cbn [fst snd]. change (pad_of 0) with 0.
+  destruct (Z.leb_spec b (Z.max 0 (b - 0))); [|lia].
+  unfold take, avail; cbn [fst snd]. change (pad_of 0) with 0. destruct (Z.leb_spec k (Z.max 0 (b - 0))); [reflexivity|lia].
+Qed.
+
 Section AnyN.
   Variables fam n : Z.
   Hypothesis Hf : is_fam fam.
   Hypothesis Hn : 0 <= n.
+
+  Lemma suffices_gglwe_prepare (key : infos) : run_takes (tree_gglwe_prepare fam n key) (0, gglwe_prepare_tmp_bytes fam n key) <> None.
+  Proof using Hf Hn.
+    unfold tree_gglwe_prepare, t_vmp_prepare, take_words. autounfold with c12gen. cbv zeta.
+    destruct Hf as [-> | ->]; cbn [Z.eqb]; apply need_scoped_take; lia.
+  Qed.
+  Lemma suffices_ggsw_prepare (g : infos) : run_takes (tree_ggsw_prepare fam n g) (0, ggsw_prepare_tmp_bytes fam n g) <> None.
+  Proof using Hf Hn.
+    unfold tree_ggsw_prepare, t_vmp_prepare, take_words. autounfold with c12gen. cbv zeta.
+    destruct Hf as [-> | ->]; cbn [Z.eqb]; apply need_scoped_take; lia.
+  Qed.
 
   Lemma suffices_glwe_normalize (res : infos) :
     run_takes (tree_glwe_normalize fam n res) (0, glwe_normalize_tmp_bytes fam n) <> None.
